@@ -291,3 +291,8 @@ package definition
 //@   trusted
 //@   ensures err == nil ==> info != nil && fresh(info) && (forall k int :: 0 <= k && k < len(info.TokenPairs) ==> true)
 //@   modifies nothing
+
+// reading the per-epoch pillar history (RPC paging, C18)
+//@ func GetPillarEpochHistoryList(context, epoch)
+//@   trusted
+//@   modifies nothing
